@@ -391,6 +391,7 @@ pzgstrf_MemInit(int_t n, int_t annz, superlumt_options_t *superlumt_options,
 	    whichspace = USER;
 	    stack.size = lwork;
 	    stack.top2 = lwork;
+	    stack.used = stack.top1; /* the tail (work arrays of the last factorization) is reclaimed here */
 	}
 	
 	lsub  = zexpanders[LSUB].mem  = Lstore->rowind;
@@ -526,8 +527,12 @@ void pzgstrf_WorkFree(int_t *iwork, doublecomplex *dwork, GlobalLU_t *Glu)
 #pragma omp critical ( STACK_LOCK )
 #endif
         {
-	    stack.used -= (stack.size - stack.top2);
-	    stack.top2 = stack.size;
+	    /* The work arrays of ALL threads are stacked at the tail end of
+	       the user-supplied work[]: nothing can be released while other
+	       threads may still be running -- the thread that finished first
+	       used to reset the whole tail, and a thread starting late was
+	       handed the live arrays of the others.  The tail is reclaimed
+	       as a whole by the next pzgstrf_MemInit(). */
 	    
 	    /*	pzgstrf_StackCompress(Glu);  */
         }
